@@ -52,6 +52,7 @@ ImplRecoverVolume == ImplTables => ReqRecoverVolume(X, O)
 ImplRecoverGibbs == ImplTables => ReqRecoverGibbs(X, O)
 ImplRecoverBulk == ImplTables => ReqRecoverBulk(X, O)
 ImplShiftInvariance == ImplTables => ReqShiftInvariance(X, O)
+ImplOrderInvariance == ImplTables => ReqOrderInvariance(X, O)
 ImplBulkModulusObject == ImplTables => ReqBulkModulusObject(X, O)
 ImplThermalExpansion == ImplTables => ReqThermalExpansion(X, O)
 ImplHeatCapacity == ImplTables => ReqHeatCapacity(X, O)
@@ -80,7 +81,7 @@ Verdict(n) ==
     [] n = "ImplPerTemperatureElectronic" -> ImplPerTemperatureElectronic [] n = "ImplPhononUnit" -> ImplPhononUnit
     [] n = "ImplPressureSign" -> ImplPressureSign [] n = "ImplRecoverVolume" -> ImplRecoverVolume
     [] n = "ImplRecoverGibbs" -> ImplRecoverGibbs [] n = "ImplRecoverBulk" -> ImplRecoverBulk
-    [] n = "ImplShiftInvariance" -> ImplShiftInvariance
+    [] n = "ImplShiftInvariance" -> ImplShiftInvariance [] n = "ImplOrderInvariance" -> ImplOrderInvariance
     [] n = "ImplBulkModulusObject" -> ImplBulkModulusObject [] n = "ImplThermalExpansion" -> ImplThermalExpansion
     [] n = "ImplHeatCapacity" -> ImplHeatCapacity [] n = "ImplHeatCapacityPolyfit" -> ImplHeatCapacityPolyfit
     [] n = "ImplGruneisen" -> ImplGruneisen [] n = "ConformsStatus" -> ConformsStatus [] n = "ConformsLen" -> ConformsLen
@@ -89,7 +90,7 @@ Verdict(n) ==
     [] n = "ConformsFiles" -> ConformsFiles
 Clauses == {"ImplExact", "ImplCompletes", "ImplLength", "ImplFailedFitReported", "ImplFitStart",
             "ImplFiles", "ImplPerTemperatureElectronic", "ImplPhononUnit",
-            "ImplPressureSign", "ImplRecoverVolume", "ImplRecoverGibbs", "ImplRecoverBulk", "ImplShiftInvariance", "ImplBulkModulusObject",
+            "ImplPressureSign", "ImplRecoverVolume", "ImplRecoverGibbs", "ImplRecoverBulk", "ImplShiftInvariance", "ImplOrderInvariance", "ImplBulkModulusObject",
             "ImplThermalExpansion", "ImplHeatCapacity", "ImplHeatCapacityPolyfit", "ImplGruneisen", "ConformsStatus",
             "ConformsLen", "ConformsRows", "ConformsBulkModulus", "ConformsTables", "ConformsStencils", "ConformsFiles"}
 Report ==
